@@ -244,8 +244,33 @@ func (self *Analyzer) typeDefStatement(node pAst.TypeDefinition) ast.AnalyzedTyp
 // Singleton declaration statement
 //
 
+// A singleton which the host does not provide starts as the zero value of its type.
+// Returns the first type below `typ` (through object fields) for which no zero value exists.
+func typeWithoutZeroValue(typ ast.Type) (ast.Type, bool) {
+	switch typ.Kind() {
+	case ast.AnyTypeKind, ast.FnTypeKind:
+		return typ, true
+	case ast.ObjectTypeKind:
+		for _, field := range typ.(ast.ObjectType).ObjFields {
+			if inner, found := typeWithoutZeroValue(field.Type); found {
+				return inner, true
+			}
+		}
+	}
+	// lists, options and any-objects start empty: their inner types need no zero value
+	return nil, false
+}
+
 func (self *Analyzer) singletonDeclStatement(node pAst.SingletonTypeDefinition) ast.AnalyzedSingletonTypeDefinition {
 	converted := self.ConvertType(node.Type, true)
+
+	if offending, found := typeWithoutZeroValue(converted); found {
+		self.error(
+			fmt.Sprintf("Singleton type '%s' has no default value: a value of type '%s' cannot be created", node.Ident.Ident(), offending.Kind()),
+			[]string{"Consider wrapping it in an option: `?type`"},
+			node.Ident.Span(),
+		)
+	}
 
 	singleton, found := self.currentModule.Singletons[node.Ident.Ident()]
 	if found {
